@@ -507,5 +507,50 @@ def job_graph(job):
             s = pts[0] + pts[1]
             if flat and decode(flat[-1], key2idx) != expected(s):
                 fail({'config': cfg, 'what': 'dependent callable was not re-evaluated after the drag update'})
+            # the single-graph-function form: alg.graph(f) with f() returning the subjects, derived elements computed in its body
+            pts2 = [mv_from(alg, pk, [float(rng.randint(1, 5)) for _ in pk]) for _ in range(2)]
+            f_subjects = lambda: [pts2[0], 0x00ff00, pts2[1], pts2[0] + pts2[1], [pts2[0] - pts2[1]]]
+            out['evaluations'] += 1
+            w2 = _safe(lambda: alg.graph(f_subjects))
+            if w2[0] != 'value':
+                fail({'config': cfg, 'what': 'graph(function) raised', 'error': w2[1]})
+                continue
+            w2 = w2[1]
+            key2idx = {int(k): v for k, v in w2.key2idx.items()}
+
+            def payload_mvs(w_):
+                fl = []
+
+                def wk(o):
+                    if isinstance(o, dict) and 'mv' in o:
+                        fl.append(o)
+                    elif isinstance(o, (list, tuple)):
+                        for x in o:
+                            wk(x)
+                wk(w_.subjects)
+                return [decode(e_, key2idx) for e_ in fl]
+
+            def want_mvs():
+                return [expected(pts2[0]), expected(pts2[1]), expected(pts2[0] + pts2[1]), expected(pts2[0] - pts2[1])]
+            if payload_mvs(w2) != want_mvs():
+                fail({'config': cfg, 'what': 'graph(function): initial payload differs from the subjects the function returns'})
+            idxs2 = list(w2.draggable_points_idxs)
+            newv2 = [[float(rng.randint(10, 20)) for _ in range(N)] for _ in idxs2]
+            r2 = _safe(lambda: setattr(w2, 'draggable_points', [{'mv': nv} for nv in newv2]))
+            if r2[0] != 'value':
+                fail({'config': cfg, 'what': 'graph(function): drag update raised', 'error': r2[1]})
+                continue
+            tg2 = {0: pts2[0], 2: pts2[1]}
+            for j, nv in zip(idxs2, newv2):
+                if j in tg2 and [float(v) for v in tg2[j].values()] != [nv[key2idx[k]] for k in tg2[j].keys()]:
+                    fail({'config': cfg, 'what': 'graph(function): drag update did not overwrite the point returned by the function', 'subject': j})
+            if payload_mvs(w2) != want_mvs():
+                fail({'config': cfg, 'what': 'graph(function): elements derived inside the function were not re-evaluated after the drag update',
+                      'got': payload_mvs(w2)[2:], 'expected': want_mvs()[2:]})
+            # an update request from the front end after the program changed a point itself
+            pts2[1]._values[0] = 77.0
+            r3 = _safe(lambda: w2._handle_custom_msg({'type': 'update_mvs'}, []))
+            if r3[0] != 'value' or payload_mvs(w2) != want_mvs():
+                fail({'config': cfg, 'what': 'graph(function): update_mvs did not re-evaluate the subjects', 'error': r3[1] if r3[0] != 'value' else None})
     out['distinct'] = n
     return out
